@@ -444,7 +444,16 @@ func (fr *frame) runBlocks() {
 				m.end("unwind", fmt.Sprintf("step limit %d exceeded at %s", m.eng.maxSteps, m.where()))
 			}
 			m.curInstr = instr
-			switch fr.visit(instr) {
+			if m.eng.traceInstr {
+				fmt.Fprintf(os.Stderr, "%*s%s: %s\n", m.depth, "", fr.fn.Name(), instrStr(instr))
+			}
+			k := fr.visit(instr)
+			if m.eng.traceInstr {
+				if v, ok := instr.(ssa.Value); ok {
+					fmt.Fprintf(os.Stderr, "%*s   = %s\n", m.depth, "", valStr(fr.env[v]))
+				}
+			}
+			switch k {
 			case kReturn:
 				fr.block = nil
 				return
@@ -776,4 +785,54 @@ func (m *machine) panicString(tp *targetPanic) string {
 		return "panic(nil)"
 	}
 	return fmt.Sprintf("%v", tp.v)
+}
+
+func instrStr(i ssa.Instruction) string {
+	if v, ok := i.(ssa.Value); ok {
+		return v.Name() + " = " + i.String()
+	}
+	return i.String()
+}
+
+func valStr(v value) string {
+	switch v := v.(type) {
+	case *Term:
+		return v.String()
+	case strV:
+		if v.IsConcrete() {
+			return fmt.Sprintf("%q", v.s)
+		}
+		return fmt.Sprintf("str[%d]", v.Len())
+	case []value:
+		s := fmt.Sprintf("slice[%d/%d]{", len(v), cap(v))
+		for i, e := range v {
+			if i > 8 {
+				s += "…"
+				break
+			}
+			s += valStr(e) + " "
+		}
+		return s + "}"
+	case structure:
+		s := "struct{"
+		for _, e := range v {
+			s += valStr(e) + "; "
+		}
+		return s + "}"
+	case array:
+		return "arr" + valStr([]value(v))
+	case *value:
+		if v == nil {
+			return "nilptr"
+		}
+		return fmt.Sprintf("&%p", v)
+	case tuple:
+		return "tuple" + valStr([]value(v))
+	case iface:
+		if v.t == nil {
+			return "nil-iface"
+		}
+		return "iface(" + typeName(v.t) + ")"
+	}
+	return fmt.Sprintf("%T", v)
 }
